@@ -426,7 +426,11 @@ func (i indexAccessor) Get(container Object) Object {
 }
 
 func setListValue(list *List, value Object, index int64) Object {
-	if int64(len(list.Value)) > index {
+	if index < 0 {
+		return newError("index assignation: list index out of range: %d", index)
+	}
+
+	if index < int64(len(list.Value)) {
 		list.Value[index] = value
 
 		return UNDEFINED
